@@ -32,9 +32,9 @@ INFO = dict(
               "every pseudoinverse / has_true_inverse / _h_matrix_pseudoinverse body, the constructors and properties they "
               "call, the spline and piecewise-affine constructors, alpha_beta / barycentric_vectors / _apply, tcoords.py) "
               "is translated from the source text of the working tree on every run (harness/trans_c04.py on py2lean2) and "
-              "61 obligations prove each translated definition equal to the model's, incl. srcPinv_eq: the dispatched "
+              "62 obligations prove each translated definition equal to the model's, incl. srcPinv_eq: the dispatched "
               "translated pseudoinverse() IS the model's pinv; the property theorems are restated about the translated "
-              "code (src_*) + 4 `decide` obligations over tables regenerated "
+              "code (src_*) + 5 `decide` obligations over tables regenerated "
               "from the live classes on every run (method resolution of pseudoinverse / _h_matrix_pseudoinverse / "
               "has_true_inverse, the set of family classes, the instance attributes pseudoinverse() writes: none) + "
               "model/implementation correspondence on generated transforms and on whole operation sequences + "
@@ -50,7 +50,7 @@ INFO = dict(
                "calls (every class is proved closed under its in-place compositions; set_h_matrix, which every class "
                "refuses, is exercised as the no-op it must be) each pseudoinverse() inverts the "
                "CURRENT map from both sides and has the CURRENT source and target exchanged; the frame condition this "
-               "needs - pseudoinverse() writes no instance attribute - is measured on live objects of all 15 classes "
+               "needs - pseudoinverse() keeps nothing on the instance, its class or its module - is measured on live objects of all 15 classes "
                "on every run and is a `decide` obligation; a memoising pseudoinverse is refuted by a three-step "
                "history.  The same over set_target histories for piecewise affine warps and thin plate splines.  The "
                "piecewise-affine inverse (source trilist on the target points, whatever shape class and triangulation "
@@ -72,9 +72,12 @@ INFO = dict(
                "VInvertible.pseudoinverse_vector, ThinPlateSplines.__init__ / pseudoinverse / has_true_inverse, "
                "AbstractPWA.__init__ / pseudoinverse / has_true_inverse / _apply / _rebuild_target_vectors, alpha_beta, "
                "barycentric_vectors, Targetable.set_target / _target_setter_with_verification / _verify_target, "
-               "Alignment._target_setter and the two _sync_state_from_target of the warps (so that whole set_target / "
-               "pseudoinverse() histories of translated spline and piecewise-affine objects are theorems: "
-               "src_tps_ops_pinv_sound, src_pwa_ops_pinv_sound), tcoords_to_image_coords, image_coords_to_tcoords - each is read from the source text "
+               "Alignment._target_setter and the two _sync_state_from_target of the warps (what is proved of them: set_target "
+               "replaces _target and nothing else that pseudoinverse() reads - the translated object states carry no derived "
+               "cache (coefficients, target vectors, the CachedPWA memo: the statements that rebuild them are skipped words, "
+               "both _sync_state_from_target bodies translate to the identity), so src_tps_ops_pinv_sound / "
+               "src_pwa_ops_pinv_sound say that pseudoinverse() after any set_target history is the reverse warp of the "
+               "CURRENT end points; stale derived state is the oracle's business: tpsops / pwaops), tcoords_to_image_coords, image_coords_to_tcoords - each is read from the source text "
                "of the working tree on every run, rewritten statement by statement into Lean (Generated/C04Src.lean; a "
                "method call on self = the translated body of the class the live MRO table names) and PROVED equal to the "
                "model for all arguments (GenProps/C04Src.lean): Translation(t) = ofAffine 1 t, UniformScale / "
@@ -90,8 +93,24 @@ INFO = dict(
                "statements, inverted test with swapped arms, keyword order) keeps the proofs; another constructor, a "
                "dropped negation / reciprocal / exchange, a kernel left on the old centres, the target's own trilist, a "
                "tolerance-based factory in the path break them (checked on a scratch worktree: 5 rewrites, 9 changed "
-               "decisions).  Chains: chain_pinv_sound - for any number of members the reversed chain of pseudoinverses "
-               "has the inverse matrix product and undoes the chain from both sides.  The model is also tied to /repo by "
+               "decisions; the keyword FLAGS of the constructor calls are part of the pinned call shape: bodies are "
+               "translated for skip_checks=True, so dropping that flag - although the checks only validate - is reported as "
+               "a broken tie, `no-failing-input-found`; copy= of the freshly computed matrix is accepted either way).  "
+               "EXACT vs FLOAT members: `Honest` (orthogonal linear part, exact affine row) is an exact-rational invariant "
+               "that float rotations / fitted alignments satisfy only up to rounding (the evidence counts `exact-rational "
+               "member: Honest yes/no`); pinv_inverts / src_pinv_inverts therefore prove inverse matrix, exchanged ends and "
+               "both round trips from the structural zero pattern alone (`Structural`: nothing for the classes that call "
+               "np.linalg.inv, affine row + zero translation + diagonal pattern for the closed forms - every generated "
+               "member has it exactly, counted too), and pinv_sound adds that an EXACT member has an exact member as its "
+               "inverse; honesty of float inverses is judged numerically by the oracle.  Chains: chain_pinv_sound is about "
+               "`chainPinv`, an object menpo does NOT have (TransformChain defines no pseudoinverse): a statement of what "
+               "such a method would have to be, not a guarantee about existing code.  Definitional content: in "
+               "tps_pinvFixed_reverse_fit / tps_ops_pinv_sound / src_tps_ops_pinv_sound every conjunct except the "
+               "conditional landmark return is `rfl` on the definition (the content is that the TRANSLATED pseudoinverse IS "
+               "that definition: gen_ThinPlateSplines_pseudoinverse_eq).  The aliasing / non-mutation side (a dropped "
+               ".copy(), copy= flags, in-place vs rebinding, object identity) is INVISIBLE to the value-level translation: it "
+               "is decided by the oracle and by the measured write tables, not by the translated obligations.  The model is "
+               "also tied to /repo by "
                "the regenerated tables and by running the "
                "real classes on generated members of every class, 2-D and 3-D (matrices as C / Fortran / strided / "
                "transposed-view / read-only / int64 / float32 arrays, unimodular integer matrices with condition "
@@ -114,6 +133,15 @@ INFO = dict(
                "pseudoinverse paths use (copy=False, skip_checks=True: the sanity checks of _set_h_matrix are not "
                "translated); compose_before of two Homogeneous members and the Scale factory in tcoords.py are words "
                "(C03's / C20's subjects); from_vector / as_vector in pseudoinverse_vector are parameters (C05's); the "
+               "coarse words (one word for a nested numpy idiom: `np.concatenate([np.ones([n, 1]), points], axis=1)`, "
+               "`(h_y / h_y[:, -1][:, None])[:, :-1]`, `np.hstack([x, ones])`, `np.transpose(points[trilist], axes=[1, 2, "
+               "0])`, `type(self.kernel)(points)`, `index_alpha_beta` as a parameter of _apply, `_build_coefficients()` and "
+               "`_rebuild_target_vectors()` as no-ops on the translated state) are trusted vocabulary; numpy's advanced "
+               "assignment `index[point_index] = tri_index` keeps the LAST write for repeated indices (the model's "
+               "last-containing-triangle rule; the comparison accepts any containing triangle on shared edges / vertices); "
+               "totalisations outside the quantifier: `triOf` reads a missing vertex as the origin, 1/0 = 0 in the "
+               "closed-form scale inverses and in alpha_beta (a degenerate triangle then CONTAINS every point; numpy: nan, "
+               "contains none) - guarded by the hypotheses det != 0 / NonDegenerate / `certified`; the "
                "Python harness, "
                "harness/extract_c04.py (table extraction: MRO walk over the live classes, common.attr_writes on live "
                "objects) and the driver's parser.  Library contracts (validated numerically on every case): "
@@ -134,12 +162,29 @@ INFO = dict(
     rule="one case = one transform object (class, dimension, parameters / landmark sets, array form, shape classes) with "
          "its probe points, or one live object with an operation list (mutators and pseudoinverse() queries); distinct "
          "= distinct (class, parameters, points, operations); non-trivial = not the identity map",
-    partial=["TPS: solvability of the reverse system is a hypothesis of tps_interpolates / tps_pinvFixed_reverse_fit "
+    partial=["tps_truncSVD_interpolates / tps_truncSVD_attainable_interpolates take a RATIONAL orthonormal SVD of the spline "
+             "system as hypothesis; generic systems have none over Q (singular values are irrational), the only instance "
+             "shown is a 2x2 diagonal matrix, and _build_coefficients itself is transcribed (truncInv), tied numerically "
+             "(tps_solve_tie), not translated: these two theorems are algebra about the coded formula, not a statement "
+             "about executed data",
+             "PWA: 'each target landmark returns to its source landmark' is proved per affine piece (pwa_pinv_landmarks); "
+             "through the lookup (pinv.apply t_i = s_i whichever containing triangle is picked) it follows from "
+             "certified_sound + pwa_pinv_left but is not stated as a theorem; vertices used by no triangle are not covered",
+             "the frame condition of the operation-sequence theorems (run_no_writes: the answer is a function of the "
+             "current class, h_matrix, _source, _target) is MEASURED, not proved: instance attributes, class "
+             "dictionaries along the MRO and the globals of the defining modules are diffed around pseudoinverse() on "
+             "live objects; a memo in a closure / functools cache would escape the measurement and is left to the "
+             "history generators (homops / tpsops / pwaops)",
+             "TPS: solvability of the reverse system is a hypothesis of tps_interpolates / tps_pinvFixed_reverse_fit "
              "(it cannot be derived for an abstract radial function; with the SVD contract it becomes 'every singular "
              "value is non-zero and kept', tps_truncSVD_interpolates); rank-deficient landmark sets, where "
              "min_singular_val truncates, are outside the property's quantifier: the algebraic statements "
              "truncSVD_kept / truncSVD_attainable cover them, the generator does not produce them"],
-    assumptions=["inputs are in general position with bounded condition number, as the property's quantifier states "
+    assumptions=["pseudoinverse() is a function of the object's current (class, h_matrix, _source, _target / landmarks, "
+                 "kernel class, min_singular_val) - measured on instance attributes, class dictionaries and module "
+                 "globals, not proved",
+                 "aliasing and non-mutation are outside the translated obligations (value-level translation)",
+                 "inputs are in general position with bounded condition number, as the property's quantifier states "
                  "(generator enforces it with exact arithmetic on the inputs)"],
     design_ref="DESIGN.md section 6, C04; section 7 item 1; section 14")
 IMPORTS = ["MenpoModel.Props.C04", "MenpoModel.GenProps.C04", "MenpoModel.GenProps.C04Src"]
@@ -156,12 +201,13 @@ SRC_THEOREMS = ["MenpoModel.GenProps.C04Src." + t for t in (
     "gen_AbstractPWA_has_true_inverse_eq gen_AbstractPWA_init_eq gen_AbstractPWA_pseudoinverse_eq src_pwa_pinv_eq "
     "gen_alpha_beta_eq gen_barycentric_vectors_eq gen_rebuild_target_vectors_eq gen_AbstractPWA_apply_eq src_piece_eq "
     "ctor_Homogeneous_default_eq gen_tcoords_to_image_coords_eq gen_image_coords_to_tcoords_eq src_has_true_inverse "
-    "src_pinv_sound src_run_eq src_hom_ops_pinv_sound src_pinv_involutive src_tps_pinv_reverse_fit "
+    "src_pinv_sound src_pinv_inverts src_run_eq src_hom_ops_pinv_sound src_pinv_involutive src_tps_pinv_reverse_fit "
     "src_pwa_pinv_roundtrip src_tcoords_roundtrip gen_set_target_tps_eq gen_set_target_pwa_eq src_tps_ops_pinv_sound "
     "src_pwa_ops_pinv_sound srcChainPinv_eq src_chain_pinv_sound").split()]
 GEN_THEOREMS = SRC_THEOREMS + [
     "MenpoModel.GenProps.C04.dispatch_ok",
     "MenpoModel.GenProps.C04.family_ok",
+    "MenpoModel.GenProps.C04.invertible_ok",
     "MenpoModel.GenProps.C04.pinvWrites_ok",
     "MenpoModel.GenProps.C04.no_writes_live",
     "MenpoModel.GenProps.C04.hom_ops_pinv_sound_live",
@@ -174,6 +220,9 @@ THEOREMS = [
     "MenpoModel.C04.applyH_left_inverse",
     "MenpoModel.C04.pinvH_sound",
     "MenpoModel.C04.pinv_sound",
+    "MenpoModel.C04.structural_of_honest",
+    "MenpoModel.C04.pinvH_inverts",
+    "MenpoModel.C04.pinv_inverts",
     "MenpoModel.C04.affine_total",
     "MenpoModel.C04.rotation_inverse_orientation",
     "MenpoModel.C04.tcoords_roundtrip",
@@ -434,8 +483,18 @@ def build(recipe):
     (set_target for alignments; set_h_matrix / from_vector_inplace otherwise).  Property C08/C05 make it
     indistinguishable from a fresh object, so every C04 clause must hold for it exactly as for a fresh one."""
     t = _build_fresh(recipe)
+    LAST_BUILD["history_applied"] = False
     if recipe.get("history") != "pinv-then-update":
         return t
+    u = _build_history(recipe, t)
+    LAST_BUILD["history_applied"] = u is not t
+    return u
+
+
+LAST_BUILD = {"history_applied": False}
+
+
+def _build_history(recipe, t):
     import warnings
     from menpo.shape import PointCloud
     from menpo.transform.base import Alignment
@@ -957,11 +1016,17 @@ def near(a, b, scale, tol=None):
 
 
 def honest(cls_name, h, scale, tol0=TOL):
-    """class invariants of a family class, numerically (what it means to be an honest member)"""
+    """class invariants of a family class, numerically (what it means to be an honest member).  The LINEAR conditions
+    (affine bottom row, zero translation, diagonal / uniform linear part) are judged relative to the entries of the matrix
+    itself - every coded path produces them exactly -, only the quadratic ones (L·Lᵀ) get the conditioning allowance
+    `scale²` (the inverse of a similarity with cond 1e6 is orthogonal to 1e-16·cond²)."""
     d = h.shape[0] - 1
     L, t = h[:d, :d], h[:d, d]
-    tol = tol0 * (1 + scale * scale)
-    aff = np.all(np.abs(h[d, :d]) <= tol) and abs(h[d, d] - 1) <= tol
+    lin = tol0 * max(amax(L), 1e-300)               # relative to the linear part
+    quad = tol0 * (1 + scale * scale)
+    # the bottom row multiplies the same coordinates as the linear part: a fitted alignment carries 1e-17 there, its inverse
+    # 1e-17·|L^-1| - negligible next to L^-1 itself
+    aff = np.all(np.abs(h[d, :d]) <= tol0 * max(abs(h[d, d]), amax(L), 1e-300)) and abs(h[d, d] - 1) <= tol0
     base = cls_name.replace("Alignment", "")
     if base == "Homogeneous":
         return True
@@ -971,18 +1036,50 @@ def honest(cls_name, h, scale, tol0=TOL):
         return True
     g = L.dot(L.T)
     k = np.trace(g) / d
+    tz = bool(np.all(np.abs(t) <= lin))
     if base == "Similarity":
-        return k > 0 and bool(np.all(np.abs(g - k * np.eye(d)) <= tol * (1 + k)))
+        return k > 0 and bool(np.all(np.abs(g - k * np.eye(d)) <= quad * k))
     if base == "Rotation":
-        return bool(np.all(np.abs(g - np.eye(d)) <= tol)) and bool(np.all(np.abs(t) <= tol))
+        return bool(np.all(np.abs(g - np.eye(d)) <= quad)) and tz
     if base == "Translation":
-        return bool(np.all(np.abs(L - np.eye(d)) <= tol))
+        return bool(np.all(np.abs(L - np.eye(d)) <= tol0))
     if base == "UniformScale":
-        return bool(np.all(np.abs(L - L[0, 0] * np.eye(d)) <= tol)) and L[0, 0] != 0 and bool(np.all(np.abs(t) <= tol))
+        return bool(np.all(np.abs(L - L[0, 0] * np.eye(d)) <= lin)) and L[0, 0] != 0 and tz
     if base == "NonUniformScale":
-        return bool(np.all(np.abs(L - np.diag(np.diag(L))) <= tol)) and bool(np.all(np.diag(L) != 0)) \
-            and bool(np.all(np.abs(t) <= tol))
+        return bool(np.all(np.abs(L - np.diag(np.diag(L))) <= lin)) and bool(np.all(np.diag(L) != 0)) and tz
     return False
+
+
+def honest_exact(cls_name, h):
+    """the class invariants EXACTLY (rationals of the float entries) - what the hypothesis `Honest` of pinv_sound asks;
+    the structural part (`Structural`: affine row, zero translation, diagonal pattern) is what pinv_inverts needs"""
+    d = len(h) - 1
+    hq = [[F(v) for v in row] for row in h]
+    L = [row[:d] for row in hq[:d]]
+    t = [row[d] for row in hq[:d]]
+    base = cls_name.replace("Alignment", "")
+    aff = all(v == 0 for v in hq[d][:d]) and hq[d][d] == 1
+    tz = all(v == 0 for v in t)
+    diag = all(L[i][j] == 0 for i in range(d) for j in range(d) if i != j)
+    g = [[sum(L[i][k] * L[j][k] for k in range(d)) for j in range(d)] for i in range(d)]
+    gdiag = all(g[i][j] == 0 for i in range(d) for j in range(d) if i != j) and len({g[i][i] for i in range(d)}) == 1
+    generic = cls_name.startswith("Alignment") or base in ("Homogeneous", "Affine", "Similarity")   # np.linalg.inv(h_matrix)
+    if base == "Homogeneous":
+        return True, True
+    if base == "Affine":
+        return aff, True
+    if base == "Similarity":
+        return aff and gdiag and g[0][0] > 0, True
+    if base == "Rotation":
+        return aff and tz and gdiag and g[0][0] == 1, generic or (aff and tz)
+    if base == "Translation":
+        ok = aff and diag and all(L[i][i] == 1 for i in range(d))
+        return ok, generic or ok
+    if base == "UniformScale":
+        ok = aff and tz and diag and len({L[i][i] for i in range(d)}) == 1 and L[0][0] != 0
+        return ok, generic or ok
+    ok = aff and tz and diag and all(L[i][i] != 0 for i in range(d))
+    return ok, ok
 
 
 def family_class_name(obj):
@@ -1053,7 +1150,13 @@ def oracle_hom(ctx, t, cls, d, xs, x2, rp):
         ctx.fail(site + "/raises", type(e).__name__, "pseudoinverse/apply raised %s: %s on a non-singular %s" % (
             type(e).__name__, e, cls), rp)
         return {"raised": True}
-    scale = max(big, amax(ph), amax(xs), amax(y), amax(x3), amax(y2))
+    nrm = None
+    if extreme and cls == "Homogeneous" and h[d, d] != 0:
+        # a projective matrix means the same map whatever its overall factor: judge it normalised by its corner entry,
+        # or the tolerance would scale with a factor that has no effect on any point
+        nrm = abs(float(h[d, d]))
+        big = max(amax(h) / nrm, 1.0)
+    scale = max(big, amax(ph) * (nrm or 1.0), amax(xs), amax(y), amax(x3), amax(y2))
     ctx.check(hti is True, site + "/has_true_inverse", "not-true", "%s.has_true_inverse is %r" % (cls, hti), rp)
     ctx.check(near(back, xs, scale, tol), site + "/left", "roundtrip", "pinv.apply(t.apply(x)) != x for %s %dD: %r vs %r" % (
         cls, d, np.asarray(back).tolist(), np.asarray(xs).tolist()), rp)
@@ -1091,7 +1194,7 @@ def oracle_hom(ctx, t, cls, d, xs, x2, rp):
             ctx.check(sw, "C04/alignment.pinv/ends", "not-swapped",
                       "pseudoinverse of %s does not have source and target exchanged" % cls, rp)
     return {"cls": pname, "h": h, "ph": ph, "y": np.asarray(y), "back": np.asarray(back), "scale": scale, "rp": rp,
-            "p": p, "cond": float(cn), "tol": tol}
+            "p": p, "cond": float(cn), "tol": tol, "nrm": nrm}
 
 
 def case_hom(ctx, r, lines, pend, cid):
@@ -1108,6 +1211,11 @@ def case_hom(ctx, r, lines, pend, cid):
     ctx.count("history:hom:" + str(r.get("history")))
     if r.get("extreme"):
         ctx.count("parameters:%s:%s" % (r["extreme"], cls))
+    if r.get("history"):
+        ctx.count("history:hom:previous-life-%s" % ("applied" if LAST_BUILD.get("history_applied") else
+                                                     "not-applicable (class has no public mutator): fresh object"))
+    he, hs = honest_exact(cls, obs["h"].tolist())
+    ctx.count("exact-rational member: Honest %s, Structural %s" % ("yes" if he else "no", "yes" if hs else "NO"))
     if cls.startswith("Alignment"):
         ctx.count("landmarks:%s/%s" % (t.source.points.dtype, t.target.points.dtype))
         ctx.count("landmarks-as:%s" % type(t.source).__name__)
@@ -1324,9 +1432,9 @@ def oracle_tps(ctx, t, pts, rp, r=None):
         return {"raised": True}
     scale = max(amax(sp), amax(tp), amax(pts))
     # the forward spline interpolates (tps_interpolates; also the sanity of the generated system)
-    ctx.check(near(fwd, tp, scale), "C04/tps/interpolates", "missed",
-              "ThinPlateSplines(source, target) does not map source landmarks onto target landmarks (max miss %.3g)"
-              % amax(np.asarray(fwd) - tp), rp)
+    if not near(fwd, tp, scale):        # the forward fit is C07's clause: a correspondence observation here, no verdict
+        ctx.mismatch("tps.forward-fit", "ThinPlateSplines(source, target) does not map source landmarks onto target "
+                     "landmarks (max miss %.3g)" % amax(np.asarray(fwd) - tp), rp)
     try:
         p = t.pseudoinverse()
         lm = p.apply(tp)
@@ -1359,8 +1467,11 @@ def oracle_tps(ctx, t, pts, rp, r=None):
     ctx.check(type(p) is type(t), site + "/class", "other-class", "pseudoinverse of ThinPlateSplines is a %s" % type(p).__name__, rp)
     ctx.check(np.array_equal(p.source.points, tp) and np.array_equal(p.target.points, sp), site + "/ends", "not-swapped",
               "TPS pseudoinverse does not have source and target exchanged", rp)
-    ctx.check(p.min_singular_val == t.min_singular_val, site + "/options", "min_singular_val-dropped",
-              "TPS pseudoinverse does not keep min_singular_val (%r vs %r)" % (p.min_singular_val, t.min_singular_val), rp)
+    # the option is not named by the property (and cannot change a value here: every singular value is far above every
+    # floor the generator uses): an observation for the correspondence, not a verdict
+    pm, tm = getattr(p, "min_singular_val", None), getattr(t, "min_singular_val", None)
+    if pm != tm:
+        ctx.mismatch("tps.pinv.options", "TPS pseudoinverse does not keep min_singular_val (%r vs %r)" % (pm, tm), rp)
     return {"fit": np.vstack([fwd, f_pts]), "pinv": np.vstack([lm, p_pts]), "scale": scale, "rp": rp,
             "oracle_ok": ok_lm and ok_rev, "sp": sp, "tp": tp, "kcls": kcls}
 
@@ -1541,12 +1652,17 @@ def case_pwax(ctx, r, lines, pend, cid):
     ctx.check(np.array_equal(fwd, y), site + "/right", "roundtrip-exact",
               "t.apply(pinv.apply(y)) != y on a float-exact lattice mesh", rp)
     exp_mask = ~inside
-    ctx.check((mask is None and not exp_mask.any()) or (mask is not None and mask.shape == exp_mask.shape and
-                                                        np.array_equal(mask, exp_mask)),
-              "C04/pwa.domain", "containment-mask", "TriangleContainmentError mask %r differs from the exact containment "
-              "%r (points %r)" % (None if mask is None else mask.tolist(), exp_mask.tolist(), allp.tolist()), rp)
+    # which points OUTSIDE the domain are reported is not the property's business (it quantifies over the domain): observation
+    if not ((mask is None and not exp_mask.any()) or (mask is not None and mask.shape == exp_mask.shape and
+                                                      np.array_equal(mask, exp_mask))):
+        ctx.mismatch("pwax.domain-mask", "TriangleContainmentError mask %r differs from the exact containment %r (points %r)"
+                     % (None if mask is None else mask.tolist(), exp_mask.tolist(), allp.tolist()), rp)
+    # the triangles that contain each probe (exact): where there are several (shared edges, vertices) the property does not
+    # say which one index_alpha_beta has to report
+    obs_holders = [holders(src, tris, p_) for p_ in xs.tolist()]
     obs = {"idx": np.asarray(idx).astype(int), "al": np.asarray(al, dtype=float), "be": np.asarray(be, dtype=float),
-           "y": np.asarray(y), "back": np.asarray(back), "mask": mask, "scale": 1.0, "rp": rp, "n_in": len(xs)}
+           "y": np.asarray(y), "back": np.asarray(back), "mask": mask, "scale": 1.0, "rp": rp, "n_in": len(xs),
+           "holders": obs_holders, "src": src, "tris": tris, "xs": xs.tolist()}
     sp, tp, tl = t.source.points, t.target.points, np.array(t.trilist)
     lines.append("%s pwaidx %d %s %s %d %s %d %s" % (cid, len(sp), flat(sp), flat(tp), len(tl),
                                                     " ".join(str(int(v)) for v in tl.ravel()), len(allp), flat(allp)))
@@ -1936,6 +2052,8 @@ def compare(ctx, pend, model):
             g = parse_groups(rep)
             tl_ = o.get("tol")
             mh = np.array([float(Fraction(x)) for x in g[0]]).reshape(d + 1, d + 1)
+            if o.get("nrm"):          # projective matrix with a huge / tiny overall factor: compare normalised
+                mh, o["ph"] = mh * o["nrm"], o["ph"] * o["nrm"]
             if not near(mh, o["ph"], max(sc, amax(mh)), tl_):
                 ctx.mismatch("hom.h_matrix", "model inverse %r vs implementation %r" % (mh.tolist(), o["ph"].tolist()), rp)
             elif rp["recipe"].get("extreme") and rp["recipe"]["cls"].replace("Alignment", "") in (
@@ -1943,7 +2061,8 @@ def compare(ctx, pend, model):
                 ctx.mismatch("hom.h_matrix", "model inverse %r vs implementation %r (entry by entry, relative)" % (
                     mh.tolist(), o["ph"].tolist()), rp)
             if o["cls"] != rp["recipe"]["cls"]:
-                ctx.mismatch("hom.class", "model keeps class %s, implementation returned %s" % (rp["recipe"]["cls"], o["cls"]), rp)
+                # the text asks for "an honest member of a homogeneous-family class" (judged by the oracle), not for the same one
+                ctx.count("hom.class: inverse of %s is a %s (the model keeps the class)" % (rp["recipe"]["cls"], o["cls"]))
             if not near(nums(g[1], d), o["y"], sc, tl_):
                 ctx.mismatch("hom.apply", "model t.apply %r vs implementation %r" % (nums(g[1], d).tolist(), o["y"].tolist()), rp)
             if not near(nums(g[2], d), o["back"], sc, tl_):
@@ -1991,8 +2110,22 @@ def compare(ctx, pend, model):
             if m_mask != i_mask:
                 ctx.mismatch("pwax.domain", "model containment-error mask %r vs implementation %r" % (m_mask, i_mask), rp)
                 continue
-            ok_idx = all(rows[k] is not None and rows[k][0] == int(o["idx"][k]) and float(rows[k][1]) == float(o["al"][k])
-                         and float(rows[k][2]) == float(o["be"][k]) for k in range(n_in))
+            def idx_ok(k):
+                # a point in ONE triangle: index, alpha, beta as the model; on a shared edge / vertex: ANY containing
+                # triangle (which one numpy's `index[point_index] = tri_index` keeps for repeated indices is the last
+                # write - a library behaviour the property does not rely on), alpha and beta those of the triangle reported
+                i_ = int(o["idx"][k])
+                hs = o["holders"][k]
+                if len(hs) == 1:
+                    return rows[k] is not None and rows[k][0] == i_ and float(rows[k][1]) == float(o["al"][k]) \
+                        and float(rows[k][2]) == float(o["be"][k])
+                if i_ not in hs:
+                    return False
+                ctx.count("pwax:probe on a shared edge/vertex: reported triangle %s the model's" % (
+                    "is" if rows[k] is not None and rows[k][0] == i_ else "is not"))
+                al_, be_ = bary(o["src"], o["tris"][i_], o["xs"][k])
+                return float(al_) == float(o["al"][k]) and float(be_) == float(o["be"][k])
+            ok_idx = all(idx_ok(k) for k in range(n_in))
             if not ok_idx:
                 ctx.mismatch("pwax.index_alpha_beta", "model (index, alpha, beta) %r vs implementation %r" % (
                     [None if x is None else (x[0], float(x[1]), float(x[2])) for x in rows[:n_in]],
@@ -2029,9 +2162,7 @@ def compare(ctx, pend, model):
                         where, mh.tolist(), q["ph"].tolist()), rp)
                     break
                 if q["cls"] != rp["recipe"]["cls"]:
-                    ctx.mismatch("ops.hom.pinv.class", "%s: model keeps class %s, implementation returned %s" % (
-                        where, rp["recipe"]["cls"], q["cls"]), rp)
-                    break
+                    ctx.count("hom.class: inverse of %s is a %s (the model keeps the class)" % (rp["recipe"]["cls"], q["cls"]))
                 me = None if ends == ["-"] else (int(ends[0]), int(ends[1]))
                 if me != q["ends"]:
                     ctx.mismatch("ops.hom.pinv.ends", "%s: model end points (ids) %r vs implementation %r" % (
@@ -2218,7 +2349,7 @@ def generated(ctx):
     ok = common.build_generated(ctx, {ex.GEN_REL: text}, ex.GEN_TARGETS, ex.N_OBLIGATIONS)
     if not ok and ctx.broken_obligations:
         bo = ctx.broken_obligations[-1]
-        bo["obligation"] = "MenpoModel.GenProps.C04 (dispatch_ok / family_ok / pinvWrites_ok / no_writes_live)"
+        bo["obligation"] = "MenpoModel.GenProps.C04 (dispatch_ok / family_ok / invertible_ok / pinvWrites_ok / no_writes_live)"
         bo["observed_attribute_writes_of_pseudoinverse"] = {c: a for c, a in writes.items() if a}
         bo["observed_dispatch"] = {r[0]: list(r[1:]) for r in rows}
         bo["observed_family"] = fam
